@@ -41,7 +41,17 @@ def run(chk: core.Check) -> None:
         "increment lattice; non-trivial = multi-letter column / area or partial string / "
         "negative index / malformed string. tables: every coordinate-taking method called "
         "with str form and tuple form, negative indices, range bounds vs slicing of the full "
-        "matrix; named ranges over accepted table names; distinct by canonical input"
+        "matrix; named ranges over accepted table names; spreadsheets of 2-4 tables whose names "
+        "are drawn from one family (a name, the name with a suffix / prefix / both, doubled, cut, "
+        "other case, plus unrelated ones: 'Sales' / 'Sales 2024' / 'My Sales x', 'Sheet1' / 'Sheet10'), "
+        "each table with its own named ranges (written through the table, through another table "
+        "with table_name=, or appended to the body; ranges that point to no table), then a history "
+        "of renames of every table in turn (also back to a freed name), added / deleted ranges, "
+        "writes through a range, get_named_ranges(table_name=str | list | tuple of 1-3 names, "
+        "also names of no table) and save / reload; after every step every range's table name, "
+        "parsed area, the values it reads and the per-table filter (str and list form) are compared "
+        "with a by-name model; non-trivial history = two table names contain one another; "
+        "distinct by canonical input"
     )
     reqs: list[tuple[str, object, dict]] = []  # (driver line, impl answer, case)
 
@@ -156,6 +166,7 @@ def run(chk: core.Check) -> None:
 
     table_part(chk)
     named_range_part(chk)
+    named_range_history_part(chk)
 
 
 # ---------------------------------------------------------------------------------------
@@ -344,6 +355,320 @@ def named_range_part(chk: core.Check) -> None:
             chk.fail({**case, "got": got, "expected": exp}, "renaming a table does not update exactly the named ranges that point to it")
 
 
+# ---------------------------------------------------------------------------------------
+# named ranges of several tables whose names contain one another: histories of renames,
+# filters by table name, added / deleted ranges, writes through a range, save / reload
+# ---------------------------------------------------------------------------------------
+
+NR_BASES = ["Sales", "Sheet1", "a", "T", "my tab", "a.b", "it's ok", "é漢", "x$y", "Q1 2024", "2024", "Data_1", "A1"]
+NR_SUFFIXES = [" 2024", "0", "1", ".x", " (2)", "_old", "s", " b", "'s x", "é", " ", "$", ".", "-1"]
+NR_PREFIXES = ["My ", "x", "Old.", "2024 ", "a'", "_", "$", "é", "Sheet"]
+NRH_W, NRH_H = 4, 4
+
+
+def _accepted_name(name):
+    """the table name as odfdo accepts it, None when the name check refuses it"""
+    from odfdo import Table
+
+    try:
+        return Table(name).name
+    except (ValueError, TypeError):
+        return None
+
+
+def nrh_name_family(rng) -> list[str]:
+    """a pool of accepted table names most of which contain / are contained in another one"""
+    base = None
+    while not base:
+        if rng.random() < 0.7:
+            base = rng.choice(NR_BASES)
+        else:
+            base = _accepted_name("".join(rng.choice(NAME_ALPHABET) for _ in range(rng.randint(1, 4))))
+    pool = [base]
+    for _ in range(rng.randint(5, 8)):
+        src = rng.choice(pool)  # chains: several levels of nesting
+        kind = rng.choice(["suffix", "suffix", "prefix", "middle", "case", "double", "cut", "unrelated"])
+        if kind == "suffix":
+            cand = src + rng.choice(NR_SUFFIXES + [str(rng.randrange(100))])
+        elif kind == "prefix":
+            cand = rng.choice(NR_PREFIXES) + src
+        elif kind == "middle":
+            cand = rng.choice(NR_PREFIXES) + src + rng.choice(NR_SUFFIXES)
+        elif kind == "case":
+            cand = rng.choice([src.lower(), src.upper(), src.swapcase()])
+        elif kind == "double":
+            cand = src + rng.choice(["", " ", "."]) + src
+        elif kind == "cut":
+            cut = rng.randrange(len(src))
+            cand = src[:cut] if rng.random() < 0.5 else src[cut:]
+        else:
+            cand = rng.choice(["Stock", "other", "zz top", "w.v", "Ünrelated"])
+        cand = _accepted_name(cand) if cand else None
+        if cand and cand not in pool:
+            pool.append(cand)
+    return pool
+
+
+def nrh_values(i: int) -> list[list[str]]:
+    return [[f"{i}:{ref_d2a(x)}{y + 1}" for x in range(NRH_W)] for y in range(NRH_H)]
+
+
+class NrhModel:
+    """by-name reference of the named ranges of a spreadsheet (no odfdo code)"""
+
+    def __init__(self, tables: list[str]) -> None:
+        self.names = list(tables)  # index = identity of the table
+        self.values = [nrh_values(i) for i in range(len(tables))]
+        self.ranges: dict[str, list] = {}  # range name -> [table name, (x, y, z, t)]
+
+    def index_of(self, table_name):
+        return self.names.index(table_name) if table_name in self.names else None
+
+    def dangling(self) -> set[str]:
+        return {tn for tn, _ in self.ranges.values() if tn not in self.names}
+
+    def of_tables(self, table_names) -> list[str]:
+        return sorted(n for n, (tn, _) in self.ranges.items() if tn in table_names)
+
+    def apply(self, step: dict) -> None:
+        do = step["do"]
+        if do == "add":
+            self.ranges[step["name"]] = [step["table_name"], _nrh_area(step["crange"])]
+        elif do == "rename":
+            old = self.names[step["table"]]
+            for r in self.ranges.values():
+                if r[0] == old:
+                    r[0] = step["new"]
+            self.names[step["table"]] = step["new"]
+        elif do == "delete":
+            del self.ranges[step["name"]]
+        elif do == "write":
+            tn, (x, y, _z, _t) = self.ranges[step["name"]]
+            self.values[self.index_of(tn)][y][x] = step["value"]
+        # "filter" and "reload" change nothing
+
+
+def _nrh_area(crange) -> tuple:
+    """expected (x, y, z, t) of a generated coordinate (str forms are written with ref_d2a)"""
+    if isinstance(crange, str):
+        out = []
+        for part in crange.split(":"):
+            letters = "".join(c for c in part if c.isalpha())
+            n = 0
+            for c in letters:
+                n = n * 26 + ALPHA.index(c) + 1
+            out += [n - 1, int(part[len(letters):]) - 1]
+        crange = out
+    crange = list(crange)
+    return tuple(crange if len(crange) == 4 else crange * 2)
+
+
+def _nrh_relation(names: list[str]) -> bool:
+    return any(a != b and a in b for a in names for b in names)
+
+
+def nrh_generate(rng, chk=None) -> dict:
+    """a whole history, chosen with the model only (the implementation is not consulted)"""
+    pool = nrh_name_family(rng)
+    k = min(rng.choice([2, 2, 3, 3, 3, 4]), len(pool) - 1) if len(pool) > 2 else min(2, len(pool))
+    tables = rng.sample(pool, k)
+    model = NrhModel(tables)
+    steps: list[dict] = []
+    counter = [0]
+
+    def add_step(dangling_ok=True):
+        x = rng.randrange(NRH_W); z = rng.randrange(x, NRH_W)
+        y = rng.randrange(NRH_H); t = rng.randrange(y, NRH_H)
+        form = rng.choice(["str_cell", "tuple2", "str_area", "tuple4", "list4"])
+        if form == "str_cell":
+            crange = f"{ref_d2a(x)}{y + 1}"
+        elif form == "tuple2":
+            crange = [x, y]
+        elif form == "str_area":
+            crange = f"{ref_d2a(x)}{y + 1}:{ref_d2a(z)}{t + 1}"
+        else:
+            crange = [x, y, z, t]
+        free = [n for n in pool if n not in model.names]
+        if dangling_ok and free and rng.random() < 0.12:
+            target, via = rng.choice(free), rng.choice(["other", "body"])
+        else:
+            target, via = rng.choice(model.names), rng.choice(["own", "own", "other", "body"])
+        name = f"nr_{counter[0]}"
+        counter[0] += 1
+        return {"do": "add", "name": name, "crange": crange, "form": form, "table_name": target, "via": via,
+                "caller": rng.randrange(len(model.names))}
+
+    def push(step):
+        model.apply(step)
+        steps.append(step)
+
+    # every table gets its own ranges (now and then one table has none)
+    for i, tn in enumerate(tables):
+        for _ in range(rng.choice([0, 1, 1, 2, 2, 3])):
+            st = add_step(dangling_ok=False)
+            st["table_name"] = tn
+            if st["via"] == "own":
+                st["caller"] = i
+            push(st)
+    # then: every table renamed in turn (random order), other steps in between
+    todo = list(range(len(tables)))
+    rng.shuffle(todo)
+    todo += [rng.randrange(len(tables)) for _ in range(rng.choice([0, 1, 2]))]
+    for i in todo:
+        for _ in range(rng.choice([0, 0, 1, 2])):
+            kind = rng.choice(["add", "add", "delete", "write", "filter", "filter", "reload"])
+            if kind == "add":
+                push(add_step())
+            elif kind == "delete" and model.ranges:
+                push({"do": "delete", "name": rng.choice(sorted(model.ranges)), "caller": rng.randrange(len(model.names))})
+            elif kind == "write":
+                live = sorted(n for n, (tn, _) in model.ranges.items() if tn in model.names)
+                if live:
+                    push({"do": "write", "name": rng.choice(live), "value": f"w{len(steps)}"})
+            elif kind == "filter":
+                form = rng.choice(["str", "str", "list", "tuple"])
+                cands = model.names * 2 + pool
+                arg = [rng.choice(cands) for _ in range(1 if form == "str" else rng.randint(1, 3))]
+                push({"do": "filter", "caller": rng.randrange(len(model.names)), "form": form, "arg": arg})
+            elif kind == "reload":
+                push({"do": "reload"})
+        blocked = set(model.names) | model.dangling()
+        free = [n for n in pool if n not in blocked]
+        if rng.random() < 0.06 or not free:
+            new = model.names[i]  # renamed to the name it has
+        else:
+            new = rng.choice(free)
+        if chk is not None:
+            old = model.names[i]
+            others = [n for j, n in enumerate(model.names) if j != i]
+            rel = ("contains-other" if any(o in old for o in others) else
+                   "contained-in-other" if any(old in o for o in others) else "unrelated")
+            chk.count("nr_history_rename", rel + ("" if model.of_tables([old]) else " (no range of its own)"))
+        push({"do": "rename", "table": i, "new": new})
+    if rng.random() < 0.5:
+        push({"do": "reload"})
+    return {"op": "nr_history", "tables": tables, "pool": pool, "steps": steps}
+
+
+def nrh_run(hist: dict, sweep: bool = True):
+    """execute a history on odfdo; compare with the by-name model after every step.
+    Returns None or the first problem {"step": k, "what": ..., "got": ..., "expected": ...}"""
+    from odfdo import Document, NamedRange, Table
+
+    model = NrhModel(hist["tables"])
+    doc = Document("spreadsheet")
+    body = doc.body
+    body.clear()
+    tables = []
+    for i, tn in enumerate(hist["tables"]):
+        tb = Table(tn, width=NRH_W, height=NRH_H)
+        tb.set_values(nrh_values(i))
+        body.append(tb)
+        tables.append(tb)
+
+    def problem(k, what, got, expected):
+        return {"step": k, "step_done": hist["steps"][k] if k >= 0 else None, "what": what, "got": got, "expected": expected}
+
+    def verify(k, read_values=True):
+        got = sorted([nr.name, nr.table_name, list(nr.crange)] for nr in body.get_named_ranges())
+        exp = sorted([n, tn, list(area)] for n, (tn, area) in model.ranges.items())
+        if got != exp:
+            last = hist["steps"][k]["do"] if k >= 0 else "build"
+            what = {
+                "rename": "renaming a table does not update exactly the named ranges that point to it "
+                          "(a range of another table changed its table name, or a range of the renamed table kept the old one)",
+                "reload": "named ranges are not read back after save / reload with the table name and area they were written with",
+            }.get(last, f"after '{last}' the named ranges are not read back with the table name and area they were written with")
+            return problem(k, what, got, exp)
+        names = [tb.name for tb in tables]
+        if names != model.names:
+            return problem(k, "table names differ from the names given", names, model.names)
+        # the filter by table name, str and list form, asked through every table in turn
+        for j, tn in enumerate(model.names + sorted(model.dangling())) if sweep else ():
+            caller = tables[(j + k) % len(tables)]
+            exp_f = model.of_tables([tn])
+            for form, arg in (("str", tn), ("list", [tn])):
+                got_f = sorted(nr.name for nr in caller.get_named_ranges(table_name=arg))
+                if got_f != exp_f:
+                    return problem(k, f"get_named_ranges(table_name={arg!r}) ({form} form) does not return exactly the named ranges that point to that table", got_f, exp_f)
+        # what each range reads
+        for n, (tn, (x, y, z, t)) in model.ranges.items() if read_values else ():
+            i = model.index_of(tn)
+            if i is None:
+                continue
+            nr = body.get_named_range(n)
+            exp_v = [model.values[i][y][x], sub(model.values[i], x, y, z, t)]
+            try:
+                got_v = [nr.get_value(), nr.get_values()]
+            except Exception as e:  # noqa: BLE001
+                got_v = repr(e)
+            if got_v != exp_v:
+                return problem(k, f"named range {n!r} (table {tn!r}) does not read the cells of its table and area", got_v, exp_v)
+        return None
+
+    for k, st in enumerate(hist["steps"]):
+        do = st["do"]
+        try:
+            if do == "add":
+                crange = st["crange"]
+                if st["form"] in ("tuple2", "tuple4"):
+                    crange = tuple(crange)
+                if st["via"] == "own":
+                    tables[model.index_of(st["table_name"])].set_named_range(st["name"], crange)
+                elif st["via"] == "other":
+                    tables[st["caller"]].set_named_range(st["name"], crange, table_name=st["table_name"])
+                else:
+                    body.append_named_range(NamedRange(st["name"], crange, st["table_name"]))
+            elif do == "rename":
+                tables[st["table"]].name = st["new"]
+            elif do == "delete":
+                tables[st["caller"]].delete_named_range(st["name"])
+            elif do == "write":
+                body.get_named_range(st["name"]).set_value(st["value"])
+            elif do == "reload":
+                doc = Document(_roundtrip(doc))
+                body = doc.body
+                tables = body.get_tables()
+            elif do == "filter":
+                arg = st["arg"][0] if st["form"] == "str" else (tuple(st["arg"]) if st["form"] == "tuple" else list(st["arg"]))
+                got_f = sorted(nr.name for nr in tables[st["caller"]].get_named_ranges(table_name=arg))
+                exp_f = model.of_tables(st["arg"])
+                if got_f != exp_f:
+                    return problem(k, f"get_named_ranges(table_name={arg!r}) does not return exactly the named ranges that point to the named tables", got_f, exp_f)
+        except Exception as e:  # noqa: BLE001
+            return problem(k, f"step '{do}' raised", repr(e), None)
+        model.apply(st)
+        nxt = hist["steps"][k + 1]["do"] if k + 1 < len(hist["steps"]) else None
+        if do == "add" and nxt == "add":
+            continue  # a run of added ranges is checked after its last one
+        # the cells are read after the steps that can change what a range reads, and at the end
+        p = verify(k, read_values=do in ("rename", "write", "reload") or nxt in (None, "rename"))
+        if p:
+            return p
+    return None
+
+
+def named_range_history_part(chk: core.Check) -> None:
+    import json
+
+    rng = chk.rng
+    for _ in range(chk.n(80, 1500)):
+        hist = nrh_generate(rng, chk)
+        nested = _nrh_relation(hist["tables"])
+        chk.case(("nr_history", json.dumps(hist, sort_keys=True, ensure_ascii=False)), nontrivial=nested,
+                 sample={"tables": hist["tables"], "steps": len(hist["steps"])})
+        chk.count("nr_history_tables", f"{len(hist['tables'])} tables, " + ("names contain one another" if nested else "unrelated names"))
+        for st in hist["steps"]:
+            chk.count("nr_history_steps", st["do"] + (":" + st["form"] if st["do"] == "filter" else ":" + st["via"] if st["do"] == "add" else ""))
+        p = nrh_run(hist)
+        if p:
+            chk.fail({**hist, "problem": p}, p["what"])
+            # the filter sweep stops a history early: see what the other clauses say without it
+            p2 = nrh_run(hist, sweep=False) if p["what"].startswith("get_named_ranges(") else None
+            if p2 and p2["what"] != p["what"]:
+                chk.fail({**hist, "sweep": False, "problem": p2}, p2["what"])
+
+
 def _esc(s: str) -> str:
     return s.replace("&", "&amp;").replace("<", "&lt;").replace('"', "&quot;")
 
@@ -358,5 +683,10 @@ def _roundtrip(doc):
 
 
 def replay(obj: dict) -> int:
+    case = obj.get("case", obj)
+    if isinstance(case, dict) and case.get("op") == "nr_history":
+        p = nrh_run(case, sweep=case.get("sweep", True))
+        print("reproduced:" if p else "not reproduced", p)
+        return 1 if p else 0
     print(obj)
     return 0
